@@ -12,13 +12,13 @@ CHECKS = {
  "C02": ("small-scope program enumeration (E1): every aggregating rule of pool A alone and in pairs x every p/q EDB in scope, every ordered pair of a 44-constant universe as group keys, 14 wildcard bodies x every subset of {1,2}^3, compared with a per-rule group-and-fold reference",
          "bounded-exhaustive: every rule/pair/EDB in scope is evaluated by the real engine and the head predicates' extensions compared exactly with the union of the per-rule reductions of the reference",
          "reference evaluator verifmc/oracle; collected lists compared as multisets; with wildcards in an aggregated body only multiplicity-independent observations (groups, min/max/distinct-collect over named variables) are compared", "4 C02"),
- "C03": ("exhaustive enumeration of labelled dependency graphs (E1): all 5^9 (thorough 6^9) graphs over 3 IDB predicates and 3^16/4^16 over 4, real analysis.Stratify checked against Floyd-Warshall reachability; plus environment-deviation exploration (E3) of the map iteration order inside Stratify (vmap build, worker processes): all labelled 3-predicate graphs under 4 global orders and every single deviation",
+ "C03": ("exhaustive enumeration of labelled dependency graphs (E1): all 5^9 (thorough 6^9) graphs over 3 IDB predicates (also with predicates that share one name and differ in arity, and with a built-in atom in front of every mention) and 3^16/4^16 over 4, real analysis.Stratify checked against Floyd-Warshall reachability; plus environment-deviation exploration (E3) of the map iteration order inside Stratify (vmap build, worker processes): all labelled 3-predicate graphs under 4 global orders and every single deviation",
          "bounded-exhaustive: for every dependency graph in scope the returned layers (or the failure) are validated against the definition: partition, map agreement, order of every edge, strictness of negative/aggregating edges, SCCs unsplit, failure iff a negative cycle",
          "graphs are built directly as analysis.Program (and a slice through parse+Analyze); map-iteration order inside Stratify is whatever the Go runtime picks on that run", "4 C03"),
  "C04": ("small-scope clause enumeration (E1): every ordered body of <=3 literals (thorough 4) over a 28-literal alphabet x 5 heads x 4 transform tails, through parse+Analyze; accepted clauses evaluated on 3 EDBs against the reference meaning of the clause as written",
          "bounded-exhaustive: for every clause in scope, acceptance implies (a) the reference can evaluate it in some order, (b) evaluation returns without panic/error, (c) the result equals the reference result (no literal ignored), (d) only ground facts",
          "reference evaluator verifmc/oracle; shapes with undocumented meaning (transform redefining a body variable, wildcard in an aggregated body) are outside the alphabet", "4 C04"),
- "C06": ("operation-history search (E2): every Add/Remove/Merge sequence up to depth d over a 12-atom universe on 12 store constructions, all observers in every reached state against a set model; plus a size dimension: 1100-4200 hash-distinct atoms in three layouts added one by one (every Add judged, observers around sizes 1000/1024), re-Add, Merge both ways, Remove",
+ "C06": ("operation-history search (E2): every Add/Remove/Merge sequence up to depth d over a 12-atom universe on 12 store constructions, all observers in every reached state against a set model, the stores passed to Merge must stay unchanged; plus a size dimension: 1100-4200 hash-distinct atoms in three layouts added one by one (every Add judged, observers around sizes 1000/1024), re-Add, Merge both ways, Remove",
          "bounded-exhaustive: every history up to the depth bound is replayed on a fresh real store; return values, Contains for all atoms, GetFacts for all patterns (exactly-once), ListPredicates and EstimateFactCount are compared with a structural set model in every state",
          "set model = Go map keyed by verifmc/oracle structural key; wrappers modelled as read part + write part; teeing Merge writes through (required by the repo's own test); violations that coincide with a set keyed by Atom.Hash() are attributed to known finding F8", "4 C06"),
  "C13": ("operation-history search (E2): every insertion sequence up to depth d over 34 intervals (nanosecond timeline) and every insertion order of fixed interval sets, on the real TemporalStore and IntervalTree, all queries compared with a pointwise integer model; then Coalesce and its invariants",
@@ -30,7 +30,7 @@ CHECKS = {
  "C08": ("exhaustive pairwise/triple-wise checking over a constructed universe of constants (E1): Equals vs structural truth, symmetry, transitivity, Equals=>Hash/String equal, String equal=>Equals, atoms; maps/structs from every argument order",
          "bounded-exhaustive: every ordered pair (and every triple of a sub-universe) of a ~3000-constant universe built through the public constructors is compared; every 2-3 entry map/struct over 8 keys (incl. hash-colliding ones) is built in every argument order",
          "structural truth = verifmc/oracle.Key; the Go-map iteration order inside ast.Map for equal-hash keys is sampled by 24 repeated constructions (not enumerated)", "4 C08"),
- "C09": ("exhaustive print/parse round trips over enumerated inputs (E1): every single ASCII byte and all short strings over a critical character set, every byte and byte pairs, boundary numbers/floats/times/durations, a ~5000-constant structured universe, atoms, the C04 clause space, temporal clauses, type expressions; every family that can carry an instant repeated under three non-UTC default timezones",
+ "C09": ("exhaustive print/parse round trips over enumerated inputs (E1): every single ASCII byte and all short strings over a critical character set, every byte and byte pairs, boundary numbers/floats/times/durations, a ~5000-constant structured universe, every ordered pair of 22 delicate leaves in 11 container positions, atoms, the C04 clause space, temporal clauses, type expressions; every family that can carry an instant repeated under three non-UTC default timezones",
          "bounded-exhaustive: every object of the enumerated spaces is printed with String(), parsed with the matching parse entry point (constants evaluated with functional.EvalExpr) and compared with Equals and with an independent structural key; clauses additionally by print-parse-print fixpoint",
          "valid UTF-8 strings, lexer-valid names, finite floats, second-resolution timestamps in annotations (the alphabet the property names)", "4 C09"),
  "C12": ("exhaustive pairwise checking over a closed type universe x constant universe (E1): SetConforms(S,T) affirmed => members(S) subset members(T); UpperBound/LowerBound of every pair and of every triple of a sub-alphabet, membership by the library's HasType",
@@ -42,7 +42,7 @@ CHECKS = {
  "C16": ("operation-history search (E2, differential): every define/load/pop history up to depth d over a 27-command alphabet (incl. a lattice predicate whose rule improves an earlier fragment's facts and a file loadable any number of times) on a fresh real interpreter; after every command, outcome and all query answers are compared with a fresh interpreter that loads only the live fragments, and the facts of fact-only predicates with the union of the facts written in the live fragments",
          "bounded-exhaustive: every command history up to the depth bound is executed on the real interpreter; the reference is the same implementation started fresh on the live fragments implied by the documented stack discipline, so no expected values are hand-written",
          "definitions are issued as Loop issues them through a 6-line method added to package interpreter by go build -overlay (mc/seam/interp_hook.go); the stack discipline (load pops interactive definitions first) is taken from the documentation", "4 C16"),
- "C17": ("small-scope enumeration in killable workers (E1): 23 diverging/converging program shapes and their pairs x seeds x every limit in {1..12,16,32,100} x store kinds, 11 shapes over a 60-fact relation, shapes whose budget is used up by an earlier stratum or by program facts before a large join, real engine with WithCreatedFactLimit compared with a capped reference evaluation",
+ "C17": ("small-scope enumeration in killable workers (E1): 23 diverging/converging program shapes and their pairs x seeds x every limit in {1..12,16,32,100} x store kinds, 11 shapes over a 60-fact relation, shapes whose budget is used up by an earlier stratum or by program facts before a large join, a second evaluation of the same store (retry after a limit error, more base facts), programs over an external relation against their unlimited evaluation, real engine with WithCreatedFactLimit compared with a capped reference evaluation",
          "bounded-exhaustive: every (program, seed, limit, store) in scope is run in a worker process (ulimit -v, 60 s deadline, re-run twice before 'did not return' is believed): returns; growth bounded; nil error => complete model; infinite model => error",
          "convergence decided by the reference evaluator with caps; growth bound instantiated as 4*(L+1)*(rules+1)+8; errors on converging programs (limit or join width exceeded) are correct behaviour", "4 C17"),
  "C10": ("exhaustive enumeration of short token strings and of all single-edit neighbours of a corpus, in killable workers (E1): every input is offered to the parser entry points / escape decoder / fact-file readers; units that parse go through AnalyzeAndCheckBounds and EvalProgram under a fact limit; plus full grids over declarations, built-in functions/predicates with every short argument list, type constructors (argument lists up to length 6 for the variadic ones), every ordered pair of 115 types joined/copied/united by rules, built-ins over mixed-type literals, extreme literals and merge descriptors",
